@@ -10,28 +10,28 @@ HERE = os.path.dirname(os.path.dirname(os.path.abspath(__file__)))
 CLAIMS = {
  "C01": ("def-use shape of every success return of the comparison route function (all tables / the key's table / makeList(first, idx+1) / makeList(idx, last+1)) + edge dominance (downward adjustment only on the op==LT edge and only under EqualStart) + tautology detection across siblings (no RangeShard.EqualStart may be `FindForKey(key) == index`) + constant table of inverseOperator, over SSA",
          "Decides only the shape of the pruning for a single comparison on the sharding column: which tables may be dropped and under which test. NOT decided: which interval a key value belongs to (range edges, calendar arithmetic, time zones), AND/OR/NOT composition of conditions, IN / BETWEEN lists, joins, ON conditions, and whether the non-tautological EqualStart test is itself exact.",
-         "", "§9 C01"),
+         "", "§4 C01 (history in §9)"),
  "C02": ("ordering/dominance of the merge pipeline in MergeSelectResult (concatenate, distinct, fold groups, sort, limit, trim; a failed step never falls through) + must-follow rule in HandleSelectStmt (functions that append helper columns are followed by the registration of aggregate mergers) + edge dominance for the LIMIT push-down (cleared under GroupBy != nil) + the first-of-several-results rule (PC5d), over SSA",
          "Decides the structure of the cross-shard merge only. NOT decided: the merged values (aggregate arithmetic, DISTINCT aggregates, NULL ordering, collations, decimal precision), UNION, joins, which queries are rejected. One structural clause is violated on the tree and recorded as a known finding (LIMIT pushed to the shards together with GROUP BY; a stable test pins the generated text).",
-         "", "§9 C02"),
+         "", "§4 C02 (history in §9)"),
  "C03": ("must-pass-through over the SSA CFG of the VALUES loop (R-path) + dominance of rejection calls",
          "Structural necessary condition only: no row of an INSERT ... VALUES list can take a path through the routing loop that neither places the row in a rewritten statement nor fails the statement; the shard-column rejections dominate SQL generation. Not a proof that the routed index equals the lookup index.",
          "SSA/CFG of proxy/plan is a faithful model of control flow; runtime panics are not modelled as exits.", "§4 C03"),
  "C04": ("def-use of the routed index list (all copies = unmodified Rule.GetSubTableIndexes(), one copy = one-element slice) + edge dominance / who-may-call per statement type at every generateShardingSQLs call site + error-edge must-pass in HandleInsertStmt + loop must-pass (every taken index files a statement) + cursor shape (HasNext/Next/GetCurrentTableIndex) + dominance of the schema rewrite by GetType()==\"global\" over SSA",
          "Decides the route structure only: which handler (all copies / one copy) each statement type goes through, that the all-copies route is the rule's full index list, that generateShardingSQLs emits one statement per routed index filed under that index's slice and database with the text restored before the cursor advances, and that the decorators write GetDatabaseNameByTableIndex(current index) for global rules. Not decided: which physical databases a layout configures, statements mixing global and sharded tables, aliases, the rewritten text.",
-         "", "§9 C04"),
+         "", "§4 C04 (history in §9)"),
  "C05": ("edge dominance + error-edge must-pass in the two shard-column rejection functions",
          "Decides only the rejection gate of the property's second sentence: an assignment whose column is the rule's sharding column reaches only error returns, inside the loop over all assignments, and these checks dominate SQL generation. That exactly the matching rows change and the affected-row count are row-level equivalence and are not decided.",
-         "", "§9 C05"),
+         "", "§4 C05 (history in §9)"),
  "C06": ("edge dominance on the fast-path gates (token pre-check result -> unshard plan)",
          "Decides only the gates: a table with a sharding rule makes the token pre-check answer 'not unsharded' on every path, and the unshard fast plan is chosen only on the pre-check's positive answer (or when the router has no rules). Whether the whitespace tokenizer sees every table the SQL grammar sees (letter case, comments glued to names, quoting) is a language-equivalence question and is not decided.",
-         "", "§9 C06"),
+         "", "§4 C06 (history in §9)"),
  "C07": ("effect analysis: writers of routing configuration (SSA stores/map updates rooted at protected types) must be unreachable in the VTA call graph from the session roots",
          "Decides 'planning never writes routing configuration shared between sessions' for every call path the VTA call graph admits; plan equality follows from absence of shared mutable state and is not separately checked.",
          "VTA call graph over-approximates dynamic calls (no reflection/unsafe dispatch in the analysed packages); writes through unsafe or reflection are not seen.", "§4 C07"),
  "C08": ("unit (dimension) analysis by def-use over SSA: the sequence whose elements enter Mycat's string hash / murmur hash is traced through every call site to utf16.Encode (Java chars), a []rune conversion or raw bytes; lengths feeding the relative hash-slice bounds must be lengths of the very sequence that is indexed",
          "Decides only the unit in which the key's characters are counted and indexed (UTF-16 code units as in Java, consistently between bound computation and indexing). NOT decided: the hash arithmetic itself, the partition tables (counts/lengths summing to 1024), PartitionByMod/Long on numeric keys, murmur seeds and bucket maps — all values.",
-         "Java's String.length()/charAt() semantics (UTF-16 code units) are taken from the Java language specification.", "§9 C08"),
+         "Java's String.length()/charAt() semantics (UTF-16 code units) are taken from the Java language specification.", "§4 C08 (history in §9)"),
  "C09": ("path-sensitive linear bounds prover over SSA for slice expressions on untrusted key strings",
          "Decides only 'a malformed calendar key cannot cause an out-of-range slice panic' in the three date-shard key parsers; interval arithmetic and placement are not covered.",
          "time.Format(\"2006-01-02\") yields at least 10 bytes (axiom).", "§4 C09"),
@@ -46,19 +46,19 @@ CLAIMS = {
          "Preconditions 0 <= pos <= 2^62 and len(data) <= 2^62; prover is sound but incomplete (unproven = reported).", "§4 C12"),
  "C13": ("writer/reader table extraction from SSA (body selected by `type == K` for every Type* constant of package mysql, classified by what it appends / how it advances) and agreement of the two tables (mysql.AppendBinaryValue vs RowData.ParseBinary)",
          "Decides only the wire class per column type (1/2/4/8 fixed bytes, length-encoded string, self-length-prefixed temporal): a value written without the length prefix its reader expects, or with another width, shifts every later column. NOT decided: the value conversion itself (signedness, float precision, dates/times, decimals), the NULL-bitmap arithmetic, types only one of the two tables knows (listed as info).",
-         "The repository's own binary-row reader (used for backend rows) is taken as the reference for the wire class of a type; for the classes involved it coincides with the MySQL protocol documentation.", "§9 C13"),
+         "The repository's own binary-row reader (used for backend rows) is taken as the reference for the wire class of a type; for the classes involved it coincides with the MySQL protocol documentation.", "§4 C13 (history in §9)"),
  "C14": ("def-use provenance of CalcParams' results (offsets = result of a package-parser function, count = len of it, pieces cut at its elements) + edge dominance in that function (append only on token == paramMarker of a (*Scanner).scan result, recording that token's position) + constant agreement with the lexer's byte table (initTokenByte('?', paramMarker)) + nil-error dominance in handleStmtPrepare",
          "Agreement by construction: the placeholders reported are the parameter-marker tokens of the lexer the SQL grammar itself reads, so string literals, quoted identifiers and comments are handled exactly as the grammar handles them. A private scanner in CalcParams is reported. What the lexer accepts (its own correctness, sql_mode dependent lexing such as ANSI_QUOTES) is not examined; markers inside /*! */ version comments are refused by the code.",
-         "", "§9 C14"),
+         "", "§4 C14 (history in §9)"),
  "C15": ("writer/reader table agreement (dynamic types stored into Stmt.args vs the type switch of util.ItoString, read from SSA) + def-use and phi-edge analysis of the placeholder splice in GetRewriteSQL (escapeSQL(ItoString(arg)) on every path, quotes exactly on the quote edge) + constant agreement (escaped byte set contains the wrapping quote and the backslash, in both sql_mode branches) + data dependence of the escaping on the session's sql_mode from handleStmtExecute + def-use of the executed text",
          "Decides the shape of the splice only: no byte-carrying value is bound under a type the renderer leaves bare; everything written for a placeholder went through the escaping; the escaping covers the character the literal is wrapped in; the escaping depends on the session's sql_mode (which the client can change through the pass-through SET); the text executed is the rewritten one. NOT decided: that the produced literal denotes exactly the bound bytes (value-level: multi-byte character sets, NUL bytes, float formatting, NaN/Inf), nor backend-global sql_mode the proxy cannot see.",
-         "", "§9 C15"),
+         "", "§4 C15 (history in §9)"),
  "C16": ("must-pass-through (bind -> ResetParams on every exit, deferred or direct) + comma-ok lookup discipline on the statement map",
          "Decides 'a failed execution leaves no bound value behind' (every exit after binding passes ResetParams) and 'commands on unknown ids fail'. Long-data interleaving values are not covered.",
          "Writers of Stmt.args are the frozen who-may-write table.", "§4 C16"),
  "C17": ("error-edge must-pass + edge dominance + def-use in doMultiStmts",
          "Decides one clause only: the first failing statement stops execution, intermediate results are written only for pieces that succeeded, every piece goes through doQuery and the pieces are the splitter's result in order. Where statement boundaries lie (semicolons inside strings, identifiers, comments; empty statements) is a language question over all texts and is not decided.",
-         "", "§9 C17"),
+         "", "§4 C17 (history in §9)"),
  "C18": ("who-may-call tables + edge dominance + ownership typestate (pcflow) over SSA",
          "Structure only: a single acquisition layer, replicas unreachable inside a transaction, one master connection per slice stored under the slice key under txLock, commit/rollback drain exactly the transaction map. Backend transaction state and histories are not covered.",
          "Interface calls resolved by types; mocks excluded by file name.", "§4 C18"),
@@ -89,16 +89,16 @@ CLAIMS = {
          "Decides 'no other event changes a node's status' and 'up only after a successful probe; the stated triggers always mark down'. Elapsed-time and lag values are not covered.", "", "§4 C28"),
  "C29": ("def-use shape analysis of the credential key (injective struct key vs string concatenation, interprocedural through the key constructor) + edge dominance in ClearNamespaceUsers + sibling agreement insert/lookup + phi-edge pairing in handleHandshakeResponse + wrapper forwarding + who-may-edit (fresh clone) over SSA",
          "Decides the structure of the credential index only: injective key built the same way at insert and lookup, edits confined to `stored namespace == namespace being cleared` and to the iterated key's own components, rebuild = clear own name then add, Check*Password returns the matched element of users[user], Manager wrappers forward unchanged, the session is bound to GetNamespaceByUser(user, matched password), UserManagers are edited only as fresh clones. Not decided: the scramble arithmetic (C30), histories interleaving reloads with handshakes, duplicate (user,password) pairs across namespaces (excluded by the property's own assumption).",
-         "The property's assumption (passwords unique per user name) is taken as given.", "§9 C29"),
+         "The property's assumption (passwords unique per user name) is taken as given.", "§4 C29 (history in §9)"),
  "C30": ("edge dominance of every accepting return by a full bytes.Equal between the response parameter and the scramble call on (salt parameter, candidate of users[user]) + parameter-immutability (no store/copy/append through a slice parameter, module callees followed) over SSA",
          "Decides only the shape of the acceptance test: which values are compared (this handshake's response and salt, the candidate password), that the comparison is a whole-slice equality, that hashed candidates carry the '*' prefix, and that no check overwrites the response or the salt it shares with the other checks. The SHA1/SHA256 scramble arithmetic, i.e. equality with MySQL's algorithms for all salts and passwords, is a value property and is NOT decided.",
-         "Standard-library hash and bytes functions are assumed not to write their arguments.", "§9 C30"),
+         "Standard-library hash and bytes functions are assumed not to write their arguments.", "§4 C30 (history in §9)"),
  "C31": ("edge dominance + must-pass-through on the prepare/commit gates of the two-slot reload, who-may-write on the slot switch",
          "Decides only the gates: a commit fails without a pending prepare and switches the slot only after consuming it; a prepare always parks a configuration rebuilt from the configuration it was given and sets the prepared flag; the active slot changes only in commit/delete; whoever else overwrites the inactive slot invalidates a pending prepare. The interleaving statement of the property (all histories of prepare/commit/delete, one complete generation per session) is not decided.",
          "", "§4 C31 / §9"),
  "C36": ("def-use agreement between the text that is fingerprinted into the request context's memo and the text handed to doQuery (sameVal at every set-then-run site) + sibling agreement of the normaliser composition GetMd5(GetFingerprint(text)) on the blacklist side and the request side + edge dominance of checkSQLAllowed's success return, over SSA",
          "Decides which text is fingerprinted, by which composition, and that a hit fails the statement. NOT decided: that mysql.GetFingerprint ignores exactly literal values, whitespace, keyword case and comments and nothing else — a property of a 700-line hand-written normaliser over all statement texts (language-level).",
-         "", "§9 C36"),
+         "", "§4 C36 (history in §9)"),
  "C37": ("who-may-touch on the wheel state + must-pass-through (replace on re-registration, fire once then forget, refresh on every command, removal on exit)",
          "Decides the structure of the idle timer: wheel state only on the wheel goroutine, re-registration replaces the older entry, removal clears both maps, a fired entry is forgotten, callbacks start only when the rounds are exhausted, every command records activity and the session's exit removes it from the timer. Tick/round arithmetic ('no earlier than the timeout, no later than one tick') and refreshes dropped by a full pipeline are not decided.",
          "", "§4 C37 / §9"),
